@@ -2,6 +2,7 @@ CONSTANTS
   Full = FALSE
   Emit = TRUE
   Widths = {32, 64}
+  MemAddrs = {0, 1, 65520}
 INIT Init
 NEXT Next
 INVARIANTS Laws
